@@ -684,7 +684,15 @@ macro_rules! first_of_order {
             iter.try_fold(init, |a, b_value| {
                 let b = b_value.expect_number()?;
                 let oprand = upcast_oprands((a, b));
-                Ok(if a $cmp b {oprand.lhs()} else {oprand.rhs()})
+                // the converted operand is returned only when the conversion is the contagion to
+                // an inexact number; an exact argument is returned as it was given (3, not 3/1)
+                let inexact = matches!(oprand, NumberBinaryOperand::Real(..));
+                Ok(match (a $cmp b, inexact) {
+                    (true, true) => oprand.lhs(),
+                    (false, true) => oprand.rhs(),
+                    (true, false) => a,
+                    (false, false) => b,
+                })
             }).map(|num| Value::Number(num))
             }
         }
